@@ -313,7 +313,9 @@ func mixedRun(w *lib.Writer, rnd *lib.Rand, scratch string, cacheSize int) {
 // the retry queue has drained and a sentinel write per client has arrived, list@R0 + events must be the final list.
 // The slots are not known from the responses here: the case (KLf) is evaluated by the oracle only.
 func faultRun(w *lib.Writer, rnd *lib.Rand, scratch string, verb int, applied bool, compactBig bool) {
-	backend.VerifSetIntervals(30*time.Millisecond, 10*time.Millisecond)
+	// retry 120 ms after the uncertain answer (checked every 10 ms): wide enough to place a compaction inside the
+	// window on a loaded machine, short enough to wait for
+	backend.VerifSetIntervals(120*time.Millisecond, 10*time.Millisecond)
 	defer backend.VerifSetIntervals(5*time.Second, time.Second)
 	inner, closer, err := lib.NewEngine(lib.EngMem, scratch)
 	if err != nil {
@@ -354,7 +356,7 @@ func faultRun(w *lib.Writer, rnd *lib.Rand, scratch string, verb int, applied bo
 				last, stable = cur, time.Now()
 				return false
 			}
-			return time.Since(stable) > 80*time.Millisecond
+			return time.Since(stable) > 250*time.Millisecond
 		})
 		return ok
 	}
@@ -402,7 +404,15 @@ func faultRun(w *lib.Writer, rnd *lib.Rand, scratch string, verb int, applied bo
 	if atomic.LoadInt32(&fired) != 1 || ferr == nil {
 		outcomes["fault-not-injected"] = true
 	}
-	// a compaction inside the retry window (30 ms)
+	// a compaction inside the retry window: once the sequencer has resolved the slot and queued the operation for
+	// repair (that is when Backend.Compact starts to cap the revision), before the retry fires
+	t0 := time.Now()
+	if !waitUntil(2*time.Second, func() bool { return backend.VerifRetryQueueSize(b) >= 1 }) {
+		outcomes["uncertain-write-never-queued"] = true
+	}
+	if time.Since(t0) > 100*time.Millisecond {
+		outcomes["retry-window-possibly-missed"] = true
+	}
 	crev := uint64(0)
 	if compactBig {
 		crev = b.GetCurrentRevision() + 1000
